@@ -66,7 +66,7 @@ class AbstractPulseTemplate(PulseTemplate):
             self._declared_properties['measurement_names'] = set(map(str, measurement_names))
 
         if integral is not None:
-            if defined_channels is not None and integral.keys() != defined_channels:
+            if defined_channels is not None and integral.keys() != set(defined_channels):
                 raise ValueError('Integral does not fit to defined channels', integral.keys(), defined_channels)
             self._declared_properties['integral'] = {channel: ExpressionScalar(value)
                                                      for channel, value in integral.items()}
